@@ -84,7 +84,7 @@ def catalogue_case(draw, n_times):
 
 @st.composite
 def loss_case(draw, kinds=KINDS, weights=True, target_param="subset-ordered", target_state=False, max_states=4,
-              n_times=(3, 12), additive=False, families=("chain", "epidemic", "bounded"), allow_time=True, catalogue=0):
+              n_times=(2, 12), additive=False, families=("chain", "epidemic", "bounded"), allow_time=True, catalogue=0):
     """target_param: None | 'subset-ordered' (subset in declared order) | 'any-order' (subset, generated order).
     catalogue: k in 0..4 - in k of 4 cases the model is a pygom.common_models entry (with a hand-written abstract mirror)."""
     if catalogue and not additive and draw(st.integers(1, 4)) <= catalogue:
@@ -196,11 +196,17 @@ def broadcast(v, n, p, default=1.0):
     return a.reshape(n, p)
 
 
-def build(case, y):
-    """Construct the PyGOM model and loss object as a user would."""
+def build(case, y, model=None, shared=None):
+    """Construct the PyGOM model and loss object as a user would.
+    model: build the loss object on this existing model object instead of a new one;
+    shared: a dict that keeps the input objects (time array, data array, x0 array) of the first loss object built with
+    it, so that a second build hands the SAME Python objects to another loss object (x0 = np.array(...) written once and
+    passed to two loss objects)."""
     import pygom
     m, su = case["model"], case["setup"]
-    if m.get("catalogue"):
+    if model is not None:
+        pass
+    elif m.get("catalogue"):
         from pygom import common_models
         from pygom.model import ode_utils
         model = getattr(common_models, m["catalogue"])()
@@ -254,6 +260,11 @@ def build(case, y):
     elif forms.get("theta") in ("int_list", "int_array"):
         # the construction-time guess is only a starting value (every evaluation passes theta explicitly): whole numbers
         th_arg = [1] * len(theta0) if forms["theta"] == "int_list" else np.ones(len(theta0), dtype=int)
+    if shared is not None:
+        if "args" in shared:
+            x0_arg, t_arg, y_arg = shared["args"]
+        else:
+            shared["args"] = (x0_arg, t_arg, y_arg)
     obj = cls(th_arg, model, x0_arg, su["t0"], t_arg, y_arg, state_name, **kw)
     return model, obj
 
